@@ -232,7 +232,21 @@ fn check(ctx: &Ctx, c: &Case, case_seed: u64, tmpdir: &std::path::Path) {
         .collect();
     let prot_positions: Vec<usize> = names.iter().enumerate().filter(|(_, n)| is_protected(n)).map(|(i, _)| i).collect();
     names.sort();
-    let sig = format!("{}|{:?}|{:?}|{}|{}", ctor_name, names, prot_positions, c.with_data.is_some(), c.version.1);
+    // class: which special names occur (how often, capped), how many ordinary ones
+    let special = ["connection", "trailer", "transfer-encoding", "upgrade", "content-length", "content-type", "date", "server"];
+    let mut cls: Vec<String> = special
+        .iter()
+        .map(|n| format!("{}", names.iter().filter(|x| x == n).count().min(2)))
+        .collect();
+    cls.push(format!("o{}", names.iter().filter(|x| !special.contains(&x.as_str())).count().min(3)));
+    let sig = format!(
+        "{}|{}|p{:?}|{}|{}",
+        ctor_name,
+        cls.join(""),
+        prot_positions.first().map(|p| (*p).min(3)),
+        c.with_data.is_some(),
+        c.version.1
+    );
     let nontrivial = !c.adds.is_empty() || !c.ctor_headers.is_empty();
     rep.eval(if nontrivial { Some(&sig) } else { None });
     rep.inc(&format!("ctor:{}", ctor_name));
